@@ -264,39 +264,21 @@ fn derive_copy_shape(def: &CopyDef, symbol_table: &mut BTreeMap<Rc<str>, Shape>)
             format!("Not a Copyable type {}", base_shape.type_name()),
         ),
         // This is an interesting one. Do we assume tuple or module here?
-        Shape::Hole(pi) => Shape::Narrowed(NarrowedShape::new_with_pos(
-            vec![
-                Shape::Tuple(PositionedItem::new(vec![], pi.pos.clone())),
-                Shape::Module(ModuleShape {
-                    items: vec![],
-                    ret: Box::new(Shape::Narrowed(NarrowedShape::new_with_pos(
-                        vec![],
-                        pi.pos.clone(),
-                    ))),
-                }),
-                Shape::Import(ImportShape::Unresolved(pi.clone())),
-            ],
-            pi.pos.clone(),
-        )),
+        // Either way its fields or its result are unknown.
+        Shape::Hole(_) => Shape::Narrowed(NarrowedShape {
+            pos: def.pos.clone(),
+            types: NarrowingShape::Any,
+        }),
+        // Nothing is known about the base, so nothing is known about the
+        // result either: the copy of a tuple has the base's fields as well as
+        // its own and the copy of a module is whatever the module returns.
         Shape::Narrowed(NarrowedShape {
             pos: _,
             types: NarrowingShape::Any,
-        }) => Shape::Narrowed(NarrowedShape::new_with_pos(
-            vec![
-                Shape::Tuple(PositionedItem {
-                    pos: def.pos.clone(),
-                    val: Vec::new(),
-                }),
-                Shape::Module(ModuleShape {
-                    items: vec![],
-                    ret: Box::new(Shape::Narrowed(NarrowedShape {
-                        pos: def.pos.clone(),
-                        types: NarrowingShape::Any,
-                    })),
-                }),
-            ],
-            def.pos.clone(),
-        )),
+        }) => Shape::Narrowed(NarrowedShape {
+            pos: def.pos.clone(),
+            types: NarrowingShape::Any,
+        }),
         Shape::Narrowed(NarrowedShape {
             pos: _,
             types: NarrowingShape::Narrowed(potentials),
